@@ -11,15 +11,15 @@ import (
 // ---- running a history (a list of protocol lines) on the implementation and on the Lean driver ----
 
 type LineResult struct {
-	Impl  string
-	Model string
-	Spec  string
-	All   []idClass // specification: all matching documents in order with tie classes
-	Trace []string
+	Impl   string
+	Model  string
+	Spec   string
+	All    []idClass // specification: all matching documents in order with tie classes
+	Trace  []string
 	MTrace string
-	Fired bool
+	Fired  bool
 	MFired bool
-	TxN   int
+	TxN    int
 }
 
 type idClass struct {
@@ -214,6 +214,9 @@ func compareOp(op J, r *LineResult) (string, string) {
 	if strings.HasPrefix(impl, "panic") {
 		return "panic: " + impl, "panic: " + impl
 	}
+	if strings.HasPrefix(impl, "timeout") {
+		return "blocked: " + impl, "blocked: " + impl
+	}
 	specP, modelP := "", ""
 	implDocs, isDocs := splitDocs(impl)
 	_, hasQ := qOf(op)
@@ -302,14 +305,14 @@ func compareOp(op J, r *LineResult) (string, string) {
 
 // HistoryOutcome is the first problem found while running a history.
 type HistoryOutcome struct {
-	Index  int    // line index, -1 = none
-	Kind   string // "spec" (oracle fails on impl) | "model" (correspondence) | "inv" (model vs render spec) | "dump" | "trace"
-	Detail string
+	Index   int    // line index, -1 = none
+	Kind    string // "spec" (oracle fails on impl) | "model" (correspondence) | "inv" (model vs render spec) | "dump" | "trace"
+	Detail  string
 	Results []LineResult
 }
 
 type HistOpts struct {
-	Traces bool
+	Traces    bool
 	DumpEvery bool // compare raw key dumps after every operation
 }
 
